@@ -9,6 +9,7 @@ open DictIO
 
 set_option linter.unusedSimpArgs false
 set_option linter.unusedVariables false
+set_option linter.unusedSectionVars false
 
 /-! ## 1. layouts of writer tokens -/
 
@@ -2978,5 +2979,875 @@ theorem levelFix_tree (s : SD) (items : List CItem) (l1 ext : List Nat) (n d : N
     refine map_inj_nodup ?_ hlev.1.2
     intro a b e
     simpa using e
+
+mutual
+  theorem subsFix_treeV (s : SD) : ∀ (v : CSrc) (l1 ext : List Nat) (n d : Nat),
+      l1.length = (lineFullsV v).length → l1.Nodup → (∀ i ∈ l1, i ≤ 999999) → n + (blockFullsV v).length ≤ 1000000 →
+      okV d v = true → LkL s.lineC l1 (lineFullsV v) → LkB s.blockC n (blockFullsV v) → lvlV v = true →
+      (match v with
+       | .dict items => levelFix s (dTreeI (l1 ++ ext) n items) ∧ subsFix s (dTreeI (l1 ++ ext) n items)
+       | _ => True)
+    | .lit l, _, _, _, _, _, _, _, _, _, _, _, _ => trivial
+    | .list xs, _, _, _, _, _, _, _, _, _, _, _, _ => trivial
+    | .dict items, l1, ext, n, d, hl, hnd, hi, hn, hok, hL, hB, hlv => by
+      simp only [lineFullsV, blockFullsV, okV, lvlV, Bool.and_eq_true] at hl hn hok hL hB hlv
+      exact ⟨levelFix_tree s items l1 ext n (d + 1) hl hnd hi hn hok hL hB hlv.1,
+        subsFix_treeI s items l1 ext n (d + 1) hl hnd hi hn hok hL hB hlv.2⟩
+  /-- nothing to clean at any level below -/
+  theorem subsFix_treeI (s : SD) : ∀ (items : List CItem) (l1 ext : List Nat) (n d : Nat),
+      l1.length = (lineFullsI items).length → l1.Nodup → (∀ i ∈ l1, i ≤ 999999) →
+      n + (blockFullsI items).length ≤ 1000000 →
+      okI d items = true → LkL s.lineC l1 (lineFullsI items) → LkB s.blockC n (blockFullsI items) → lvlI items = true →
+      subsFix s (dTreeI (l1 ++ ext) n items)
+    | [], _, _, _, _, _, _, _, _, _, _, _, _ => by simp only [dTreeI, subsFix, allLevels]
+    | .entry k v :: r, l1, ext, n, d, hl, hnd, hi, hn, hok, hL, hB, hlv => by
+      simp only [lineFullsI, blockFullsI, List.length_append, okI, lvlI, Bool.and_eq_true] at hl hn hok hL hB hlv
+      obtain ⟨la, lb, rfl, hla⟩ : ∃ la lb, l1 = la ++ lb ∧ la.length = (lineFullsV v).length :=
+        ⟨l1.take (lineFullsV v).length, l1.drop (lineFullsV v).length, (List.take_append_drop _ _).symm,
+          by rw [List.length_take]; omega⟩
+      have hlb : lb.length = (lineFullsI r).length := by simp only [List.length_append] at hl; omega
+      have hdrop : (la ++ lb ++ ext).drop (lineFullsV v).length = lb ++ ext := by
+        rw [List.append_assoc, List.drop_left' hla]
+      have hnd' := List.nodup_append.mp hnd
+      have ihr := subsFix_treeI s r lb ext (n + (blockFullsV v).length) d hlb hnd'.2.1
+        (fun i h => hi i (List.mem_append_right _ h)) (by omega) hok.2 (LkL_split hla hL).2 (LkB_split hB).2 hlv.2
+      have ihv := subsFix_treeV s v la (lb ++ ext) n d hla hnd'.1 (fun i h => hi i (List.mem_append_left _ h))
+        (by omega) hok.1.2 (LkL_split hla hL).1 (LkB_split hB).1 hlv.1
+      simp only [dTreeI, hdrop]
+      cases v with
+      | lit l => simpa only [dTreeV, subsFix, allLevels] using ihr
+      | list xs => simpa only [dTreeV, subsFix, allLevels] using ihr
+      | dict items =>
+        simp only [List.append_assoc] at ihv ⊢
+        simp only [dTreeV, subsFix, allLevels]
+        exact ⟨ihv, ihr⟩
+    | .lineC x :: r, l1, ext, n, d, hl, hnd, hi, hn, hok, hL, hB, hlv => by
+      simp only [lineFullsI, blockFullsI, List.length_cons, okI, lvlI, Bool.and_eq_true] at hl hn hok hL hB hlv
+      cases l1 with
+      | nil => simp at hl
+      | cons i l1 =>
+        simp only [List.length_cons, Nat.add_right_cancel_iff] at hl
+        simp only [List.nodup_cons] at hnd
+        have hLr : LkL s.lineC l1 (lineFullsI r) := fun p hp => hL p (by simp [hp])
+        have ihr := subsFix_treeI s r l1 ext n d hl hnd.2 (fun j h => hi j (List.mem_cons_of_mem _ h)) hn hok.2 hLr hB hlv
+        simpa only [List.cons_append, dTreeI, List.headD_cons, List.tail_cons, phEntry, subsFix, allLevels] using ihr
+    | .blockC x :: r, l1, ext, n, d, hl, hnd, hi, hn, hok, hL, hB, hlv => by
+      simp only [lineFullsI, blockFullsI, List.length_cons, okI, lvlI, Bool.and_eq_true] at hl hn hok hL hB hlv
+      have hBr : LkB s.blockC (n + 1) (blockFullsI r) := by
+        intro p hp
+        apply hB p
+        simp only [List.length_cons, List.range'_succ, List.zip_cons_cons, List.mem_cons]
+        exact Or.inr hp
+      have ihr := subsFix_treeI s r l1 ext (n + 1) d hl hnd hi (by omega) hok.2 hL hBr hlv
+      simpa only [dTreeI, phEntry, subsFix, allLevels] using ihr
+end
+
+/-! ## 15. `denC c items` in closed form -/
+
+def lineIds (c : Counter) (items : List CItem) : List Nat := alloc Gen.counterLimit (lineFullsI items).length c
+def lineTbl (c : Counter) (items : List CItem) : Tbl Str := (lineIds c items).zip (lineFullsI items)
+def blockTblOf (items : List CItem) : Tbl Str := (List.range' 0 (blockFullsI items).length).zip (blockFullsI items)
+def treeOf (c : Counter) (items : List CItem) : Entries := dTreeI (lineIds c items) 0 items
+
+/-- the SDict the reader returns for the document: one entry per item in order, the comments in the tables -/
+def sdOf (c : Counter) (items : List CItem) : SD :=
+  { data := treeOf c items, lineC := lineTbl c items, blockC := blockTblOf items }
+
+/-- the hypotheses on the document that make `denC` one-to-one -/
+structure HDoc (c : Counter) (items : List CItem) : Prop where
+  wf : CSrcWFItems 1 items = true
+  ok : okI 1 items = true
+  lev : levelOK items = true
+  levs : lvlI items = true
+  nLine : (lineFullsI items).length ≤ Gen.counterLimit + 1
+  nBlock : (blockFullsI items).length ≤ 1000000
+  hc : C13.ValidCounter Gen.counterLimit c
+
+theorem tbl_get_nodup : ∀ {T : Tbl Str}, (T.map (·.1)).Nodup → ∀ {p : Nat × Str}, p ∈ T → T.get? p.1 = some p.2
+  | [], _, _, hp => by cases hp
+  | (j, b) :: T, h, p, hp => by
+    simp only [List.map_cons, List.nodup_cons] at h
+    rcases List.mem_cons.mp hp with rfl | hp
+    · simp [Tbl.get?]
+    · have hne : ¬ j = p.1 := fun e => h.1 (by rw [e]; exact List.mem_map_of_mem hp)
+      simp only [Tbl.get?, hne, if_false]
+      exact tbl_get_nodup h.2 hp
+
+section
+variable {c : Counter} {items : List CItem} (H : HDoc c items)
+include H
+
+theorem lineIds_facts : (lineIds c items).length = (lineFullsI items).length ∧ (lineIds c items).Nodup ∧
+    ∀ i ∈ lineIds c items, i ≤ 999999 :=
+  ⟨C13.alloc_length _ _ _, C13.alloc_nodup H.nLine H.hc, C13.alloc_le H.hc _⟩
+
+theorem lineTbl_ids : (lineTbl c items).map (·.1) = lineIds c items :=
+  List.map_fst_zip (by rw [(lineIds_facts H).1]; exact Nat.le_refl _)
+
+omit H in
+theorem blockTbl_ids : (blockTblOf items).map (·.1) = List.range' 0 (blockFullsI items).length :=
+  List.map_fst_zip (by simp)
+
+theorem lkL_own : LkL (lineTbl c items) (lineIds c items) (lineFullsI items) := by
+  intro p hp
+  exact tbl_get_nodup (by rw [lineTbl_ids H]; exact (lineIds_facts H).2.1) hp
+
+theorem lkB_own : LkB (blockTblOf items) 0 (blockFullsI items) := by
+  intro p hp
+  exact tbl_get_nodup (by rw [blockTbl_ids]; exact List.nodup_range') hp
+
+theorem sdOf_fix : levelFix (sdOf c items) (treeOf c items) ∧ subsFix (sdOf c items) (treeOf c items) := by
+  obtain ⟨h1, h2, h3⟩ := lineIds_facts H
+  have e : treeOf c items = dTreeI (lineIds c items ++ []) 0 items := by rw [List.append_nil]; rfl
+  rw [e]
+  exact ⟨levelFix_tree (sdOf c items) items _ [] 0 1 h1 h2 h3 (by have := H.nBlock; omega) H.ok (lkL_own H) (lkB_own H) H.lev,
+    subsFix_treeI (sdOf c items) items _ [] 0 1 h1 h2 h3 (by have := H.nBlock; omega) H.ok (lkL_own H) (lkB_own H) H.levs⟩
+
+/-- **`denC` in closed form**: the reader's SDict for the document is `sdOf c items` -/
+theorem denC_closed : denC c items = sdOf c items := by
+  obtain ⟨hfix, hsub⟩ := sdOf_fix H
+  have hst := label_stateI items { counter := c }
+  have hL : (labelCItems { counter := c } items).1.lineC = lineTbl c items := by
+    rw [hst]
+    simp only [stAfter]
+    rw [C02.setAll_nodup _ _ (by
+      simp only [List.map_nil, List.nil_append]
+      exact (lineTbl_ids H) ▸ (lineIds_facts H).2.1)]
+    rfl
+  have hB : (labelCItems { counter := c } items).1.blockC = blockTblOf items := by
+    rw [hst]
+    simp [stAfter, blockTblOf]
+  have hD : denPEs (labelCItems { counter := c } items).2 [] = treeOf c items := by
+    have e : treeOf c items = dTreeI (alloc Gen.counterLimit (lineFullsI items).length c ++ []) 0 items := by
+      rw [List.append_nil]; rfl
+    have := den_treeI items { counter := c } [] 1 [] H.wf
+      (by
+        show KNodup (dTreeI (alloc Gen.counterLimit (lineFullsI items).length c ++ []) 0 items)
+        rw [← e]; exact hfix.2.2.2)
+      (by
+        show allLevels KNodup (dTreeI (alloc Gen.counterLimit (lineFullsI items).length c ++ []) 0 items)
+        rw [← e]; exact allLevels_imp (fun D h => h.2.2.2) hsub)
+      (by intro k _ h; cases h)
+    rw [this]
+    show [] ++ dTreeI (alloc Gen.counterLimit (lineFullsI items).length c ++ []) 0 items = treeOf c items
+    rw [← e]; rfl
+  have : denC c items = (SD.mk (denPEs (labelCItems { counter := c } items).2 []) []
+      (labelCItems { counter := c } items).1.lineC (labelCItems { counter := c } items).1.blockC []).clean := rfl
+  rw [this, hL, hB, hD]
+  exact clean_fix (sdOf c items) hfix hsub
+
+end
+
+/-! ## 16. the hoisted top level -/
+
+def isBE (e : Key × Val) : Bool := match e.1 with | .str k => containsPh kwBlock k | _ => false
+def isIE (e : Key × Val) : Bool := match e.1 with | .str k => containsPh kwIncl k | _ => false
+
+theorem hoist_def (D : Entries) : hoistPlaceholders D =
+    D.filter isBE ++ D.filter (fun e => !isBE e && isIE e) ++ D.filter (fun e => !isBE e && !isIE e) := rfl
+
+/-- without include entries the reordering puts the block-comment entries first and keeps the rest in order -/
+theorem hoist_eq {D : Entries} (h : ∀ e ∈ D, isIE e = false) :
+    hoistPlaceholders D = D.filter isBE ++ D.filter (fun e => !isBE e) := by
+  rw [hoist_def]
+  have e2 : D.filter (fun e => !isBE e && isIE e) = [] := List.filter_eq_nil_iff.mpr fun e he => by simp [h e he]
+  have e3 : D.filter (fun e => !isBE e && !isIE e) = D.filter (fun e => !isBE e) :=
+    List.filter_congr fun e he => by simp [h e he]
+  rw [e2, e3, List.append_nil]
+
+theorem xtoksEs_append (lvl : Nat) : ∀ (a b : Entries), xtoksEs lvl (a ++ b) = xtoksEs lvl a ++ xtoksEs lvl b
+  | [], b => by simp [xtoksEs]
+  | (k, .dict es) :: a, b => by simp only [List.cons_append, xtoksEs, xtoksEs_append lvl a b, List.append_assoc]
+  | (k, .list xs) :: a, b => by simp only [List.cons_append, xtoksEs, xtoksEs_append lvl a b, List.append_assoc]
+  | (k, .leaf x) :: a, b => by simp only [List.cons_append, xtoksEs, xtoksEs_append lvl a b, List.append_assoc]
+
+theorem wshEs_append (d : Nat) : ∀ (a b : Entries), wshEs d (a ++ b) = (wshEs d a && wshEs d b)
+  | [], b => by simp [wshEs]
+  | (k, .dict es) :: a, b => by simp only [List.cons_append, wshEs, wshEs_append d a b, Bool.and_assoc]
+  | (k, .list xs) :: a, b => by simp only [List.cons_append, wshEs, wshEs_append d a b, Bool.and_assoc]
+  | (k, .leaf x) :: a, b => by simp only [List.cons_append, wshEs, wshEs_append d a b, Bool.and_assoc]
+
+theorem wshEs_filter (d : Nat) (p : Key × Val → Bool) : ∀ (D : Entries), wshEs d D = true → wshEs d (D.filter p) = true
+  | [], _ => by simp [wshEs]
+  | (k, .dict es) :: a, h => by
+    simp only [wshEs, Bool.and_eq_true] at h
+    simp only [List.filter_cons]
+    split
+    · simp only [wshEs, Bool.and_eq_true]; exact ⟨h.1, wshEs_filter d p a h.2⟩
+    · exact wshEs_filter d p a h.2
+  | (k, .list xs) :: a, h => by
+    simp only [wshEs, Bool.and_eq_true] at h
+    simp only [List.filter_cons]
+    split
+    · simp only [wshEs, Bool.and_eq_true]; exact ⟨h.1, wshEs_filter d p a h.2⟩
+    · exact wshEs_filter d p a h.2
+  | (k, .leaf x) :: a, h => by
+    simp only [wshEs, Bool.and_eq_true] at h
+    simp only [List.filter_cons]
+    split
+    · simp only [wshEs, Bool.and_eq_true]; exact ⟨h.1, wshEs_filter d p a h.2⟩
+    · exact wshEs_filter d p a h.2
+
+theorem phCov_append (L B : Tbl Str) : ∀ (a b : Entries), phCov L B (a ++ b) = (phCov L B a && phCov L B b)
+  | [], b => by simp [phCov]
+  | (k, .dict es) :: a, b => by simp only [List.cons_append, phCov, phCov_append L B a b, Bool.and_assoc]
+  | (k, .list xs) :: a, b => by simp only [List.cons_append, phCov, phCov_append L B a b]
+  | (k, .leaf x) :: a, b => by simp only [List.cons_append, phCov, phCov_append L B a b, Bool.and_assoc]
+
+theorem phCov_filter (L B : Tbl Str) (p : Key × Val → Bool) : ∀ (D : Entries), phCov L B D = true →
+    phCov L B (D.filter p) = true
+  | [], _ => by simp [phCov]
+  | (k, .dict es) :: a, h => by
+    simp only [phCov, Bool.and_eq_true] at h
+    simp only [List.filter_cons]
+    split
+    · simp only [phCov, Bool.and_eq_true]; exact ⟨h.1, phCov_filter L B p a h.2⟩
+    · exact phCov_filter L B p a h.2
+  | (k, .list xs) :: a, h => by
+    simp only [phCov] at h
+    simp only [List.filter_cons]
+    split
+    · simp only [phCov]; exact phCov_filter L B p a h
+    · exact phCov_filter L B p a h
+  | (k, .leaf x) :: a, h => by
+    simp only [phCov, Bool.and_eq_true] at h
+    simp only [List.filter_cons]
+    split
+    · simp only [phCov, Bool.and_eq_true]; exact ⟨h.1, phCov_filter L B p a h.2⟩
+    · exact phCov_filter L B p a h.2
+
+theorem docEs_append (L B : Tbl Str) : ∀ (a b : Entries), docEs L B (a ++ b) = docEs L B a ++ docEs L B b
+  | [], b => by simp [docEs]
+  | (k, .dict es) :: a, b => by simp only [List.cons_append, docEs, docEs_append L B a b]
+  | (k, .list xs) :: a, b => by simp only [List.cons_append, docEs, docEs_append L B a b]
+  | (k, .leaf x) :: a, b => by simp only [List.cons_append, docEs, docEs_append L B a b]
+
+def isBlockItem : CItem → Bool
+  | .blockC _ => true
+  | _ => false
+
+/-- block-comment entries of the data are the block comments of the written document -/
+theorem docEs_filter (L B : Tbl Str) (d : Nat) : ∀ (D : Entries), wshEs d D = true →
+    docEs L B (D.filter isBE) = (docEs L B D).filter isBlockItem ∧
+    docEs L B (D.filter fun e => !isBE e) = (docEs L B D).filter fun it => !isBlockItem it
+  | [], _ => by simp [docEs]
+  | (k, .dict es) :: a, h => by
+    simp only [wshEs, Bool.and_eq_true] at h
+    have ih := docEs_filter L B d a h.2
+    have hb : isBE (k, Val.dict es) = false := (sel_dom h.1.1).1
+    simp only [List.filter_cons, hb, Bool.false_eq_true, if_false, Bool.not_false, if_true, docEs, isBlockItem, ih.1, ih.2]
+    exact ⟨trivial, trivial⟩
+  | (k, .list xs) :: a, h => by
+    simp only [wshEs, Bool.and_eq_true] at h
+    have ih := docEs_filter L B d a h.2
+    have hb : isBE (k, Val.list xs) = false := (sel_dom h.1.1).1
+    simp only [List.filter_cons, hb, Bool.false_eq_true, if_false, Bool.not_false, if_true, docEs, isBlockItem, ih.1, ih.2]
+    exact ⟨trivial, trivial⟩
+  | (k, .leaf x) :: a, h => by
+    simp only [wshEs, Bool.and_eq_true, Bool.or_eq_true, decide_eq_true_eq] at h
+    have ih := docEs_filter L B d a h.2
+    cases hp : phOf k x with
+    | none =>
+      rw [hp] at h
+      rcases h.1 with h1 | h1
+      · cases h1
+      · have hb : isBE (k, Val.leaf x) = false := (sel_dom h1.1.1).1
+        simp only [List.filter_cons, hb, Bool.false_eq_true, if_false, Bool.not_false, if_true, docEs, hp, isBlockItem,
+          ih.1, ih.2]
+        exact ⟨trivial, trivial⟩
+    | some li =>
+      obtain ⟨l, i⟩ := li
+      obtain ⟨rfl, rfl, hi⟩ := phOf_some hp
+      cases l with
+      | true =>
+        have hb : isBE (Key.str (phWord true i), Val.leaf (.str (phWord true i))) = false := (sel_line hi).1
+        simp only [List.filter_cons, hb, Bool.false_eq_true, if_false, Bool.not_false, if_true, docEs, hp, isBlockItem,
+          ih.1, ih.2]
+        exact ⟨trivial, trivial⟩
+      | false =>
+        have hb : isBE (Key.str (phWord false i), Val.leaf (.str (phWord false i))) = true := (sel_block hi).1
+        simp only [List.filter_cons, hb, Bool.false_eq_true, if_false, Bool.not_true, if_true, docEs, hp, isBlockItem,
+          ih.1, ih.2]
+        exact ⟨trivial, trivial⟩
+
+/-- no entry of the tree looks like an include entry -/
+theorem wsh_noIncl (d : Nat) : ∀ (D : Entries), wshEs d D = true → ∀ e ∈ D, isIE e = false
+  | [], _, e, he => by cases he
+  | (k, .dict es) :: a, h, e, he => by
+    simp only [wshEs, Bool.and_eq_true] at h
+    rcases List.mem_cons.mp he with rfl | he
+    · have := (sel_dom h.1.1)
+      cases k with
+      | int z => rfl
+      | str s => exact (C01.domKey_not_ph h.1.1).2
+    · exact wsh_noIncl d a h.2 e he
+  | (k, .list xs) :: a, h, e, he => by
+    simp only [wshEs, Bool.and_eq_true] at h
+    rcases List.mem_cons.mp he with rfl | he
+    · cases k with
+      | int z => rfl
+      | str s => exact (C01.domKey_not_ph h.1.1).2
+    · exact wsh_noIncl d a h.2 e he
+  | (k, .leaf x) :: a, h, e, he => by
+    simp only [wshEs, Bool.and_eq_true, Bool.or_eq_true, decide_eq_true_eq] at h
+    rcases List.mem_cons.mp he with rfl | he
+    · cases hp : phOf k x with
+      | none =>
+        rw [hp] at h
+        rcases h.1 with h1 | h1
+        · cases h1
+        · cases k with
+          | int z => rfl
+          | str s => exact (C01.domKey_not_ph h1.1.1).2
+      | some li =>
+        obtain ⟨l, i⟩ := li
+        obtain ⟨rfl, rfl, hi⟩ := phOf_some hp
+        exact containsPh_incl_ph l i
+    · exact wsh_noIncl d a h.2 e he
+
+/-! ### the block-comment ids of the raw output -/
+
+def bIdOf : XTok → Option Nat
+  | .ph false i _ => some i
+  | _ => none
+
+def bIds (xs : List XTok) : List Nat := xs.filterMap bIdOf
+
+theorem bIds_append (a b : List XTok) : bIds (a ++ b) = bIds a ++ bIds b := List.filterMap_append
+
+theorem bIds_tok (s : STok) (xs : List XTok) : bIds (.tok s :: xs) = bIds xs := rfl
+theorem bIds_phT (i : Nat) (pad : Str) (xs : List XTok) : bIds (.ph true i pad :: xs) = bIds xs := rfl
+theorem bIds_phF (i : Nat) (pad : Str) (xs : List XTok) : bIds (.ph false i pad :: xs) = i :: bIds xs := rfl
+theorem bIds_nil : bIds [] = [] := rfl
+
+theorem bIds_toks (ts : List STok) : bIds (ts.map XTok.tok) = [] := by
+  induction ts with
+  | nil => rfl
+  | cons t ts ih => rw [List.map_cons, bIds_tok, ih]
+
+theorem xtoks_flatMap (lvl : Nat) : ∀ (D : Entries), xtoksEs lvl D = D.flatMap fun e => xtoksEs lvl [e]
+  | [] => by simp [xtoksEs]
+  | e :: D => by
+    have := xtoksEs_append lvl [e] D
+    simp only [List.singleton_append] at this
+    rw [this, xtoks_flatMap lvl D, List.flatMap_cons]
+
+/-- reordering the entries of a level permutes the block-comment ids -/
+theorem bIds_perm (lvl : Nat) {D D' : Entries} (h : D'.Perm D) : (bIds (xtoksEs lvl D')).Perm (bIds (xtoksEs lvl D)) := by
+  rw [xtoks_flatMap lvl D', xtoks_flatMap lvl D]
+  exact (List.Perm.flatMap_right _ h).filterMap _
+
+theorem mem_bIds {xs : List XTok} {j : Nat} : j ∈ bIds xs ↔ ∃ pad, XTok.ph false j pad ∈ xs := by
+  simp only [bIds, List.mem_filterMap]
+  constructor
+  · rintro ⟨t, ht, e⟩
+    cases t with
+    | tok s => cases e
+    | cmt l f => cases e
+    | ph l i pad =>
+      cases l with
+      | true => cases e
+      | false => simp only [bIdOf, Option.some.injEq] at e; subst e; exact ⟨pad, ht⟩
+  · rintro ⟨pad, h⟩
+    exact ⟨_, h, rfl⟩
+
+
+theorem any_of_mem_bIds {xs : List XTok} {j : Nat} (h : j ∈ bIds xs) : (xs.any fun t => isPhX false j t) = true := by
+  obtain ⟨pad, hp⟩ := mem_bIds.mp h
+  exact List.any_eq_true.mpr ⟨_, hp, by simp [isPhX]⟩
+
+theorem not_mem_bIds {xs : List XTok} {j : Nat} (h : j ∉ bIds xs) : ∀ t ∈ xs, isPhX false j t = false := by
+  intro t ht
+  cases hp : isPhX false j t with
+  | false => rfl
+  | true =>
+    exfalso
+    cases t with
+    | tok s => cases hp
+    | cmt l f => cases hp
+    | ph l i pad =>
+      simp only [isPhX, Bool.and_eq_true, beq_iff_eq] at hp
+      obtain ⟨rfl, rfl⟩ := hp
+      exact h (mem_bIds.mpr ⟨pad, ht⟩)
+
+mutual
+  theorem bIds_treeV : ∀ (v : CSrc) (l1 ext : List Nat) (n d lvl : Nat),
+      l1.length = (lineFullsV v).length → (∀ i ∈ l1, i ≤ 999999) → n + (blockFullsV v).length ≤ 1000000 →
+      okV d v = true →
+      (match v with
+       | .dict items => bIds (xtoksEs lvl (dTreeI (l1 ++ ext) n items)) = List.range' n (blockFullsI items).length
+       | _ => True)
+    | .lit l, _, _, _, _, _, _, _, _, _ => trivial
+    | .list xs, _, _, _, _, _, _, _, _, _ => trivial
+    | .dict items, l1, ext, n, d, lvl, hl, hi, hn, hok => by
+      simp only [lineFullsV, blockFullsV, okV] at hl hn hok
+      exact bIds_treeI items l1 ext n (d + 1) lvl hl hi hn hok
+  /-- the block-comment ids of the raw output, in document order, are consecutive -/
+  theorem bIds_treeI : ∀ (items : List CItem) (l1 ext : List Nat) (n d lvl : Nat),
+      l1.length = (lineFullsI items).length → (∀ i ∈ l1, i ≤ 999999) → n + (blockFullsI items).length ≤ 1000000 →
+      okI d items = true →
+      bIds (xtoksEs lvl (dTreeI (l1 ++ ext) n items)) = List.range' n (blockFullsI items).length
+    | [], _, _, _, _, _, _, _, _, _ => by simp [dTreeI, xtoksEs, bIds, blockFullsI]
+    | .entry k v :: r, l1, ext, n, d, lvl, hl, hi, hn, hok => by
+      simp only [lineFullsI, blockFullsI, List.length_append, okI, Bool.and_eq_true] at hl hn hok ⊢
+      obtain ⟨la, lb, rfl, hla⟩ : ∃ la lb, l1 = la ++ lb ∧ la.length = (lineFullsV v).length :=
+        ⟨l1.take (lineFullsV v).length, l1.drop (lineFullsV v).length, (List.take_append_drop _ _).symm,
+          by rw [List.length_take]; omega⟩
+      have hlb : lb.length = (lineFullsI r).length := by simp only [List.length_append] at hl; omega
+      have hdrop : (la ++ lb ++ ext).drop (lineFullsV v).length = lb ++ ext := by
+        rw [List.append_assoc, List.drop_left' hla]
+      have ihr := bIds_treeI r lb ext (n + (blockFullsV v).length) d lvl hlb
+        (fun i h => hi i (List.mem_append_right _ h)) (by omega) hok.2
+      have ihv := bIds_treeV v la (lb ++ ext) n d (lvl + 1) hla (fun i h => hi i (List.mem_append_left _ h)) (by omega)
+        hok.1.2
+      simp only [dTreeI, hdrop]
+      have hph : ∀ x, phOf (keyOfStr k) x = none := phOf_dom hok.1.1
+      cases v with
+      | lit l =>
+        simp only [dTreeV, xtoksEs, hph, blockFullsV, List.length_nil, Nat.add_zero, Nat.zero_add] at ihr ⊢
+        simpa only [List.cons_append, List.nil_append, bIds_tok] using ihr
+      | list xs =>
+        simp only [dTreeV, xtoksEs, blockFullsV, List.length_nil, Nat.add_zero, Nat.zero_add] at ihr ⊢
+        rw [show ∀ (a b : XTok) (m q z : List XTok), a :: (b :: m ++ q) ++ z = [a, b] ++ m ++ q ++ z from by intros; simp,
+          bIds_append, bIds_append, bIds_append, bIds_toks, ihr]
+        simp only [bIds_tok, bIds_nil, List.nil_append]
+      | dict items =>
+        simp only [List.append_assoc] at ihv ⊢
+        simp only [dTreeV, xtoksEs, blockFullsV] at ihr ⊢
+        rw [show ∀ (a b : XTok) (m q z : List XTok), a :: b :: m ++ q ++ z = [a, b] ++ m ++ q ++ z from by intros; simp,
+          bIds_append, bIds_append, bIds_append, ihv, ihr, ← List.range'_append_1]
+        simp only [bIds_tok, bIds_nil, List.nil_append, List.append_nil]
+    | .lineC x :: r, l1, ext, n, d, lvl, hl, hi, hn, hok => by
+      simp only [lineFullsI, blockFullsI, List.length_cons, okI, Bool.and_eq_true] at hl hn hok ⊢
+      cases l1 with
+      | nil => simp at hl
+      | cons i l1 =>
+        simp only [List.length_cons, Nat.add_right_cancel_iff] at hl
+        have ihr := bIds_treeI r l1 ext n d lvl hl (fun j h => hi j (List.mem_cons_of_mem _ h)) hn hok.2
+        simp only [List.cons_append, dTreeI, List.headD_cons, List.tail_cons, phEntry, xtoksEs,
+          phOf_ph true (hi i List.mem_cons_self), List.singleton_append, bIds_phT]
+        exact ihr
+    | .blockC x :: r, l1, ext, n, d, lvl, hl, hi, hn, hok => by
+      simp only [lineFullsI, blockFullsI, List.length_cons, okI, Bool.and_eq_true] at hl hn hok ⊢
+      have ihr := bIds_treeI r l1 ext (n + 1) d lvl hl hi (by omega) hok.2
+      have hnn : n ≤ 999999 := by omega
+      simp only [dTreeI, phEntry, xtoksEs, phOf_ph false hnn, List.singleton_append, bIds_phF]
+      rw [List.range'_succ, ihr]
+end
+
+/-! ## 17. the writer theorem applies to `denC c items` -/
+
+/-- the first block comment of the document (if there is one) stands at the top level (finding D28 otherwise) -/
+def firstBlockTop : List CItem → Bool
+  | [] => true
+  | .blockC _ :: _ => true
+  | .entry _ v :: r => (blockFullsV v).isEmpty && firstBlockTop r
+  | .lineC _ :: r => firstBlockTop r
+
+/-- the block comments as they are written: the first one completed to a header -/
+def writtenBlocks (items : List CItem) : List Str :=
+  match blockFullsI items with
+  | [] => []
+  | t :: r => makeDefaultBlockComment .native t :: r
+
+theorem first_block : ∀ (items : List CItem) (ls : List Nat) (n d : Nat), okI d items = true →
+    firstBlockTop items = true → blockFullsI items ≠ [] → n ≤ 999999 →
+    ∃ rest, (dTreeI ls n items).filter isBE = phEntry false n :: rest
+  | [], _, _, _, _, _, hne, _ => by simp [blockFullsI] at hne
+  | .blockC x :: r, ls, n, d, _, _, _, hn => by
+    have hb : isBE (phEntry false n) = true := (sel_block hn).1
+    exact ⟨(dTreeI ls (n + 1) r).filter isBE, by simp only [dTreeI, List.filter_cons, hb, if_true]⟩
+  | .entry k v :: r, ls, n, d, hok, hf, hne, hn => by
+    simp only [okI, Bool.and_eq_true] at hok
+    simp only [firstBlockTop, Bool.and_eq_true, List.isEmpty_iff] at hf
+    simp only [blockFullsI, hf.1, List.nil_append] at hne
+    obtain ⟨rest, hr⟩ := first_block r (ls.drop (lineFullsV v).length) n d hok.2 hf.2 hne hn
+    have hb : isBE (keyOfStr k, dTreeV ls n v) = false := (sel_dom hok.1.1).1
+    refine ⟨rest, ?_⟩
+    simp only [dTreeI, List.filter_cons, hb, Bool.false_eq_true, if_false, hf.1, List.length_nil, Nat.add_zero]
+    exact hr
+  | .lineC x :: r, ls, n, d, hok, hf, hne, hn => by
+    simp only [okI, Bool.and_eq_true] at hok
+    simp only [firstBlockTop] at hf
+    simp only [blockFullsI] at hne
+    obtain ⟨rest, hr⟩ := first_block r ls.tail n d hok.2 hf hne hn
+    have hb : isBE (phEntry true (ls.headD 0)) = false := containsPh_block_line _
+    refine ⟨rest, ?_⟩
+    simp only [dTreeI, List.filter_cons, hb, Bool.false_eq_true, if_false]
+    exact hr
+
+mutual
+  theorem fulls_okV : ∀ (v : CSrc) (d d' : Nat), CSrcWFV d v = true → okV d' v = true →
+      (∀ f ∈ lineFullsV v, LineFull f) ∧ (∀ f ∈ blockFullsV v, BlockFull f)
+    | .lit l, _, _, _, _ => by simp [lineFullsV, blockFullsV]
+    | .list xs, _, _, _, _ => by simp [lineFullsV, blockFullsV]
+    | .dict items, d, d', hwf, hok => by
+      simp only [CSrcWFV, okV] at hwf hok
+      simpa only [lineFullsV, blockFullsV] using fulls_okI items (d + 1) (d' + 1) hwf hok
+  /-- every comment of the document is one the writer reproduces -/
+  theorem fulls_okI : ∀ (items : List CItem) (d d' : Nat), CSrcWFItems d items = true → okI d' items = true →
+      (∀ f ∈ lineFullsI items, LineFull f) ∧ (∀ f ∈ blockFullsI items, BlockFull f)
+    | [], _, _, _, _ => by simp [lineFullsI, blockFullsI]
+    | .entry k v :: r, d, d', hwf, hok => by
+      simp only [CSrcWFItems, okI, Bool.and_eq_true] at hwf hok
+      obtain ⟨v1, v2⟩ := fulls_okV v d d' hwf.1.2 hok.1.2
+      obtain ⟨r1, r2⟩ := fulls_okI r d d' hwf.2 hok.2
+      simp only [lineFullsI, blockFullsI, List.mem_append]
+      exact ⟨fun f hf => hf.elim (v1 f) (r1 f), fun f hf => hf.elim (v2 f) (r2 f)⟩
+    | .lineC x :: r, d, d', hwf, hok => by
+      simp only [CSrcWFItems, okI, Bool.and_eq_true] at hwf hok
+      obtain ⟨r1, r2⟩ := fulls_okI r d d' hwf.2 hok.2
+      simp only [lineFullsI, blockFullsI, List.mem_cons]
+      refine ⟨fun f hf => ?_, r2⟩
+      rcases hf with rfl | hf
+      · exact lineFull_of_ok hwf.1 hok.1
+      · exact r1 f hf
+    | .blockC x :: r, d, d', hwf, hok => by
+      simp only [CSrcWFItems, okI, Bool.and_eq_true] at hwf hok
+      obtain ⟨r1, r2⟩ := fulls_okI r d d' hwf.2 hok.2
+      simp only [lineFullsI, blockFullsI, List.mem_cons]
+      refine ⟨r1, fun f hf => ?_⟩
+      rcases hf with rfl | hf
+      · exact blockFull_of_ok hwf.1 hok.1
+      · exact r2 f hf
+end
+
+/-- the hypotheses of the writer side of the round trip -/
+structure HW (c : Counter) (items : List CItem) : Prop extends HDoc c items where
+  first : firstBlockTop items = true
+  indep : indepFrom [] (writtenBlocks items) = true
+
+theorem xtoks_phEntry (lvl : Nat) (l : Bool) {i : Nat} (hi : i ≤ 999999) (R : Entries) :
+    xtoksEs lvl (phEntry l i :: R) = .ph l i (padOf lvl (phWord l i)) :: xtoksEs lvl R := by
+  simp only [phEntry, xtoksEs, phOf_ph l hi, List.singleton_append]
+
+theorem wok_sdOf {c : Counter} {items : List CItem} (H : HW c items) : WOK (sdOf c items) := by
+  have HD := H.toHDoc
+  obtain ⟨h1, h2, h3⟩ := lineIds_facts HD
+  have hnb : 0 + (blockFullsI items).length ≤ 1000000 := by have := H.nBlock; omega
+  have eD : treeOf c items = dTreeI (lineIds c items ++ []) 0 items := by rw [List.append_nil]; rfl
+  have hwsh : wshEs 1 (treeOf c items) = true := by rw [eD]; exact wsh_treeI items _ [] 0 1 h1 h3 hnb H.ok
+  have hdoc := doc_treeI (lineTbl c items) (blockTblOf items) items _ [] 0 1 h1 h3 hnb H.ok (lkL_own HD) (lkB_own HD)
+  rw [← eD] at hdoc
+  have hho := hoist_eq (wsh_noIncl 1 _ hwsh)
+  have hperm : (hoistPlaceholders (treeOf c items)).Perm (treeOf c items) := by
+    rw [hho]; exact List.filter_append_perm _ _
+  have hbids : bIds (xtoksEs 0 (treeOf c items)) = List.range' 0 (blockFullsI items).length := by
+    rw [eD]; exact bIds_treeI items _ [] 0 1 0 h1 h3 hnb H.ok
+  have hbperm := bIds_perm 0 hperm
+  rw [hbids] at hbperm
+  obtain ⟨fl, fb⟩ := fulls_okI items 1 1 H.wf H.ok
+  refine ⟨?_, ?_, ?_, ?_, ?_, ?_, ?_, ?_, rfl⟩
+  · show wshEs 1 (hoistPlaceholders (treeOf c items)) = true
+    rw [hho, wshEs_append, wshEs_filter 1 _ _ hwsh, wshEs_filter 1 _ _ hwsh]; rfl
+  · show phCov (lineTbl c items) (blockTblOf items) (hoistPlaceholders (treeOf c items)) = true
+    rw [hho, phCov_append, phCov_filter _ _ _ _ hdoc.1, phCov_filter _ _ _ _ hdoc.1]; rfl
+  · intro e he
+    obtain ⟨ha, hb⟩ := List.of_mem_zip (show (e.1, e.2) ∈ (lineIds c items).zip (lineFullsI items) from he)
+    exact ⟨h3 _ ha, fl _ hb⟩
+  · intro e he
+    obtain ⟨ha, hb⟩ := List.of_mem_zip (show (e.1, e.2) ∈ (List.range' 0 (blockFullsI items).length).zip (blockFullsI items) from he)
+    have := List.mem_range'_1.mp ha
+    exact ⟨by have := H.nBlock; omega, fb _ hb⟩
+  · show ((blockTblOf items).map (·.1)).Nodup
+    rw [blockTbl_ids]; exact List.nodup_range'
+  · intro e he
+    apply any_of_mem_bIds
+    apply hbperm.mem_iff.mpr
+    have : e.1 ∈ (blockTblOf items).map (·.1) := List.mem_map_of_mem he
+    rwa [blockTbl_ids] at this
+  · show FirstOK (blockTblOf items) (xtoksEs 0 (hoistPlaceholders (treeOf c items)))
+    cases hbf : blockFullsI items with
+    | nil => simp [blockTblOf, hbf, FirstOK]
+    | cons t r =>
+      have hB : blockTblOf items = (0, t) :: (List.range' 1 r.length).zip r := by
+        simp [blockTblOf, hbf, List.range'_succ]
+      obtain ⟨rest, hrest⟩ := first_block items (lineIds c items) 0 1 H.ok H.first (by rw [hbf]; simp) (by omega)
+      have hh : hoistPlaceholders (treeOf c items) =
+          phEntry false 0 :: (rest ++ (treeOf c items).filter fun e => !isBE e) := by
+        rw [hho]
+        show (dTreeI (lineIds c items) 0 items).filter isBE ++ _ = _
+        rw [hrest]; rfl
+      rw [hB, hh, xtoks_phEntry 0 false (by omega)]
+      refine ⟨_, _, rfl, ?_⟩
+      apply not_mem_bIds
+      have hnd : (bIds (xtoksEs 0 (hoistPlaceholders (treeOf c items)))).Nodup := hbperm.nodup_iff.mpr List.nodup_range'
+      rw [hh, xtoks_phEntry 0 false (by omega), bIds_phF, List.nodup_cons] at hnd
+      exact hnd.1
+  · show indepFrom [] ((blockTbl (blockTblOf items)).map (·.2)) = true
+    have := H.indep
+    simp only [writtenBlocks] at this
+    cases hbf : blockFullsI items with
+    | nil => simp [blockTblOf, hbf, blockTbl, indepFrom]
+    | cons t r =>
+      rw [hbf] at this
+      have hB : blockTblOf items = (0, t) :: (List.range' 1 r.length).zip r := by
+        simp [blockTblOf, hbf, List.range'_succ]
+      rw [hB]
+      simp only [blockTbl, List.map_cons]
+      rw [List.map_snd_zip (by simp)]
+      exact this
+
+/-! ## 18. M3: the writer on the SDict of a commented document -/
+
+/-- the canonical document: entries in the writer's spelling, the top-level block comments first (in their order),
+    everything else in its order; nested levels keep their order -/
+def canonItems (items : List CItem) : List CItem :=
+  (cnormI items).filter isBlockItem ++ (cnormI items).filter fun it => !isBlockItem it
+
+/-- the document has a header of its own: its first block comment contains ` C++ ` -/
+def ownHeaderI (items : List CItem) : Bool :=
+  match blockFullsI items with
+  | t :: _ => containsCpp t
+  | [] => false
+
+/-- **the document that is written**: the default header as one more top-level block comment unless the document has
+    its own header, then the canonical document -/
+def writtenDoc (items : List CItem) : List CItem :=
+  (if ownHeaderI items then [] else [.blockC C12.hdrBody]) ++ canonItems items
+
+theorem docSD_sdOf {c : Counter} {items : List CItem} (H : HW c items) : docSD (sdOf c items) = writtenDoc items := by
+  have HD := H.toHDoc
+  obtain ⟨h1, h2, h3⟩ := lineIds_facts HD
+  have hnb : 0 + (blockFullsI items).length ≤ 1000000 := by have := H.nBlock; omega
+  have eD : treeOf c items = dTreeI (lineIds c items ++ []) 0 items := by rw [List.append_nil]; rfl
+  have hwsh : wshEs 1 (treeOf c items) = true := by rw [eD]; exact wsh_treeI items _ [] 0 1 h1 h3 hnb H.ok
+  have hdoc := doc_treeI (lineTbl c items) (blockTblOf items) items _ [] 0 1 h1 h3 hnb H.ok (lkL_own HD) (lkB_own HD)
+  rw [← eD] at hdoc
+  have hho := hoist_eq (wsh_noIncl 1 _ hwsh)
+  have hf := docEs_filter (lineTbl c items) (blockTblOf items) 1 _ hwsh
+  have hown : ownHeader (blockTblOf items) = ownHeaderI items := by
+    simp only [ownHeader, ownHeaderI, blockTblOf]
+    cases blockFullsI items with
+    | nil => rfl
+    | cons t r => simp [List.range'_succ]
+  show hdrItems (blockTblOf items) ++ docEs (lineTbl c items) (blockTblOf items) (hoistPlaceholders (treeOf c items)) = _
+  rw [hho, docEs_append, hf.1, hf.2, hdoc.2]
+  simp only [hdrItems, hown, writtenDoc, canonItems]
+
+/-- **M3 `C12_write_commented`.**  Under `HW c items` the text written for the SDict the reader returns is a layout of
+    the document `writtenDoc items` — the header (own or default) first, with nothing in front of it — and the layout
+    is admissible (`GapsOKC`) once a line feed is put in front. -/
+theorem C12_write_commented {c : Counter} {items : List CItem} (H : HW c items) :
+    ∃ gaps, fmtSD .native (denC c items) = some (spreadC (ctoksItems (writtenDoc items)) ([] :: gaps) ['\n']) ∧
+      GapsOKC (ctoksItems (writtenDoc items)) (['\n'] :: gaps) ['\n'] = true := by
+  rw [denC_closed H.toHDoc, ← docSD_sdOf H]
+  exact write_commented _ (wok_sdOf H)
+
+/-! ## 19. a line feed in front of the text does not matter to the reader -/
+
+theorem foldl_prefix (f : LexSt → Str → LexSt × Str) : ∀ (ls : List Str) (st : LexSt) (acc : List Str),
+    ls.foldl (fun (a : LexSt × List Str) l => ((f a.1 l).1, a.2 ++ [(f a.1 l).2])) (st, acc) =
+      ((ls.foldl (fun (a : LexSt × List Str) l => ((f a.1 l).1, a.2 ++ [(f a.1 l).2])) (st, [])).1,
+       acc ++ (ls.foldl (fun (a : LexSt × List Str) l => ((f a.1 l).1, a.2 ++ [(f a.1 l).2])) (st, [])).2)
+  | [], st, acc => by simp
+  | l :: ls, st, acc => by
+    simp only [List.foldl_cons, List.nil_append]
+    rw [foldl_prefix f ls (f st l).1 (acc ++ [(f st l).2]), foldl_prefix f ls (f st l).1 [(f st l).2]]
+    simp
+
+theorem commentStages_eq (cm : Bool) (dir : Str) (c : Counter) (text : Str) :
+    commentStages cm dir c text =
+      (let r1 := (splitLinesKeep text).foldl (fun (a : LexSt × List Str) l =>
+          ((lexLineComment cm a.1 l).1, a.2 ++ [(lexLineComment cm a.1 l).2])) ({ counter := c }, [])
+       let r2 := r1.2.foldl (fun (a : LexSt × List Str) l =>
+          ((lexInclude dir a.1 l).1, a.2 ++ [(lexInclude dir a.1 l).2])) (r1.1, [])
+       let b := lexBlockCommentsFuel cm (r2.2.flatten.length + 1) 0 [] r2.2.flatten
+       ({ r2.1 with blockC := b.1 }, b.2)) := rfl
+
+theorem nl_facts : isLineBreak '\n' = true ∧ (dropWs ['\n']).head? ≠ some '#' := by decide
+
+theorem commentStages_nl (cm : Bool) (dir : Str) (c : Counter) (t : Str) :
+    commentStages cm dir c ('\n' :: t) = ((commentStages cm dir c t).1, '\n' :: (commentStages cm dir c t).2) := by
+  have hsplit : splitLinesKeep ('\n' :: t) = ['\n'] :: splitLinesKeep t :=
+    C12.Stages.split_break t nl_facts.1 (by rintro ⟨h, _⟩; cases h)
+  rw [commentStages_eq, commentStages_eq, hsplit]
+  simp only [List.foldl_cons, C12.Stages.lexLine_single, List.nil_append]
+  rw [foldl_prefix (lexLineComment cm) (splitLinesKeep t) { counter := c } [['\n']]]
+  simp only [List.singleton_append, List.foldl_cons, C02.lexInclude_id dir _ nl_facts.2, List.nil_append]
+  rw [foldl_prefix (lexInclude dir) _ _ [['\n']]]
+  simp only [List.singleton_append, List.flatten_cons, List.length_cons]
+  have := C12.Stages.BL_step cm 0 [] '\n' (List.foldl (fun (a : LexSt × List Str) l =>
+      ((lexInclude dir a.1 l).1, a.2 ++ [(lexInclude dir a.1 l).2]))
+    ((List.foldl (fun (a : LexSt × List Str) l =>
+      ((lexLineComment cm a.1 l).1, a.2 ++ [(lexLineComment cm a.1 l).2])) ({ counter := c }, []) (splitLinesKeep t)).1, [])
+    (List.foldl (fun (a : LexSt × List Str) l =>
+      ((lexLineComment cm a.1 l).1, a.2 ++ [(lexLineComment cm a.1 l).2])) ({ counter := c }, []) (splitLinesKeep t)).2).2.flatten
+    (by rintro ⟨h, _⟩; cases h)
+  simp only [C12.Stages.BL, List.length_cons] at this
+  rw [this]
+
+theorem strip_ws_cons {c : Char} (hc : isWs c = true) (s : Str) : strip (c :: s) = strip s := by
+  simp [strip, List.dropWhile_cons, hc]
+
+theorem parseRest_nl (st : LexSt) (b : Str) : parseRest st ('\n' :: b) = parseRest st b := by
+  unfold parseRest
+  have : strip (('\n' :: b).map fun ch => if ch == '\n' then ' ' else ch) =
+      strip (b.map fun ch => if ch == '\n' then ' ' else ch) := by
+    simp only [List.map_cons, beq_self_eq_true, if_true]
+    exact strip_ws_cons (by decide) _
+  simp only [this]
+
+/-- the reader does not see a line feed in front of the text -/
+theorem parseNative_nl (cm : Bool) (dir : Str) (c : Counter) (t : Str) :
+    parseNative cm dir c ('\n' :: t) = parseNative cm dir c t := by
+  rw [parseNative_stages, parseNative_stages, commentStages_nl, parseRest_nl]
+
+/-! ## 20. M4: reading the written text -/
+
+theorem wfI_append (d : Nat) : ∀ (a b : List CItem), CSrcWFItems d (a ++ b) = (CSrcWFItems d a && CSrcWFItems d b)
+  | [], b => by simp [CSrcWFItems]
+  | .entry k v :: a, b => by simp only [List.cons_append, CSrcWFItems, wfI_append d a b, Bool.and_assoc]
+  | .lineC x :: a, b => by simp only [List.cons_append, CSrcWFItems, wfI_append d a b, Bool.and_assoc]
+  | .blockC x :: a, b => by simp only [List.cons_append, CSrcWFItems, wfI_append d a b, Bool.and_assoc]
+
+theorem wfI_filter (d : Nat) (p : CItem → Bool) : ∀ (a : List CItem), CSrcWFItems d a = true →
+    CSrcWFItems d (a.filter p) = true
+  | [], _ => by simp [CSrcWFItems]
+  | .entry k v :: a, h => by
+    simp only [CSrcWFItems, Bool.and_eq_true] at h
+    simp only [List.filter_cons]
+    split
+    · simp only [CSrcWFItems, Bool.and_eq_true]; exact ⟨h.1, wfI_filter d p a h.2⟩
+    · exact wfI_filter d p a h.2
+  | .lineC x :: a, h => by
+    simp only [CSrcWFItems, Bool.and_eq_true] at h
+    simp only [List.filter_cons]
+    split
+    · simp only [CSrcWFItems, Bool.and_eq_true]; exact ⟨h.1, wfI_filter d p a h.2⟩
+    · exact wfI_filter d p a h.2
+  | .blockC x :: a, h => by
+    simp only [CSrcWFItems, Bool.and_eq_true] at h
+    simp only [List.filter_cons]
+    split
+    · simp only [CSrcWFItems, Bool.and_eq_true]; exact ⟨h.1, wfI_filter d p a h.2⟩
+    · exact wfI_filter d p a h.2
+
+mutual
+  theorem cnorm_wfV : ∀ (v : CSrc) (d : Nat), CSrcWFV d v = true → okV d v = true → CSrcWFV d (cnormV v) = true
+    | .lit l, d, _, hok => by
+      simp only [okV, Bool.and_eq_true, decide_eq_true_eq] at hok
+      simp only [cnormV, CSrcWFV, Bool.and_eq_true, decide_eq_true_eq]
+      exact ⟨C01.written_ok hok.1, hok.2⟩
+    | .dict items, d, hwf, hok => by
+      simp only [CSrcWFV, okV] at hwf hok
+      simp only [cnormV, CSrcWFV]
+      exact cnorm_wfI items (d + 1) hwf hok
+    | .list xs, d, _, hok => by
+      simp only [okV] at hok
+      simp only [cnormV, CSrcWFV]
+      exact C01.srcOfXs_wf (d + 1) _ hok
+  /-- the document in the writer's spelling is well formed -/
+  theorem cnorm_wfI : ∀ (items : List CItem) (d : Nat), CSrcWFItems d items = true → okI d items = true →
+      CSrcWFItems d (cnormI items) = true
+    | [], _, _, _ => by simp [cnormI, CSrcWFItems]
+    | .entry k v :: r, d, hwf, hok => by
+      simp only [CSrcWFItems, okI, Bool.and_eq_true] at hwf hok
+      simp only [cnormI, CSrcWFItems, Bool.and_eq_true]
+      exact ⟨⟨⟨C01.domKey_word hok.1.1, by rw [C01.domKey_types_back hok.1.1]; rfl⟩, cnorm_wfV v d hwf.1.2 hok.1.2⟩,
+        cnorm_wfI r d hwf.2 hok.2⟩
+    | .lineC x :: r, d, hwf, hok => by
+      simp only [CSrcWFItems, okI, Bool.and_eq_true] at hwf hok
+      simp only [cnormI, CSrcWFItems, Bool.and_eq_true]
+      exact ⟨hwf.1, cnorm_wfI r d hwf.2 hok.2⟩
+    | .blockC x :: r, d, hwf, hok => by
+      simp only [CSrcWFItems, okI, Bool.and_eq_true] at hwf hok
+      simp only [cnormI, CSrcWFItems, Bool.and_eq_true]
+      exact ⟨hwf.1, cnorm_wfI r d hwf.2 hok.2⟩
+end
+
+theorem writtenDoc_wf {c : Counter} {items : List CItem} (H : HW c items) : CSrcWFItems 1 (writtenDoc items) = true := by
+  have h := cnorm_wfI items 1 H.wf H.ok
+  simp only [writtenDoc, canonItems]
+  rw [wfI_append, wfI_append, wfI_filter 1 _ _ h, wfI_filter 1 _ _ h]
+  split
+  · simp [CSrcWFItems]
+  · simp [CSrcWFItems, hdrBody_text]
+
+mutual
+  /-- the comments of a document with the dict structure around them: entries lose key and scalar -/
+  def skelV : CSrc → CSrc
+    | .dict items => .dict (skelI items)
+    | .lit _ => .lit (.bare [])
+    | .list _ => .lit (.bare [])
+  def skelI : List CItem → List CItem
+    | [] => []
+    | .entry _ v :: r => .entry [] (skelV v) :: skelI r
+    | .lineC x :: r => .lineC x :: skelI r
+    | .blockC x :: r => .blockC x :: skelI r
+end
+
+mutual
+  theorem skel_cnormV : ∀ (v : CSrc), skelV (cnormV v) = skelV v
+    | .lit l => by simp only [cnormV, skelV]
+    | .list xs => by simp only [cnormV, skelV]
+    | .dict items => by simp only [cnormV, skelV, skel_cnormI items]
+  /-- the writer's spelling keeps every comment of every level, at its place among the entries -/
+  theorem skel_cnormI : ∀ (items : List CItem), skelI (cnormI items) = skelI items
+    | [] => by simp only [cnormI]
+    | .entry k v :: r => by simp only [cnormI, skelI, skel_cnormV v, skel_cnormI r]
+    | .lineC x :: r => by simp only [cnormI, skelI, skel_cnormI r]
+    | .blockC x :: r => by simp only [cnormI, skelI, skel_cnormI r]
+end
+
+theorem filter_filter_self {α} (p : α → Bool) (l : List α) : (l.filter p).filter p = l.filter p := by
+  simp [List.filter_filter]
+
+/-- the top level of the written document: everything but the block comments in the original order; the block
+    comments in their original order, after the default header if that was added -/
+theorem writtenDoc_top (items : List CItem) :
+    (writtenDoc items).filter (fun it => !isBlockItem it) = (cnormI items).filter (fun it => !isBlockItem it) ∧
+    (writtenDoc items).filter isBlockItem =
+      (if ownHeaderI items then [] else [.blockC C12.hdrBody]) ++ (cnormI items).filter isBlockItem := by
+  have h1 : ((cnormI items).filter isBlockItem).filter (fun it => !isBlockItem it) = [] := by
+    simp [List.filter_filter]
+  have h2 : ((cnormI items).filter (fun it => !isBlockItem it)).filter isBlockItem = [] := by
+    simp [List.filter_filter]
+  have h3 : ((cnormI items).filter isBlockItem).filter isBlockItem = (cnormI items).filter isBlockItem := by
+    simp only [List.filter_filter, Bool.and_self]
+  have h4 : ((cnormI items).filter (fun it => !isBlockItem it)).filter (fun it => !isBlockItem it) =
+      (cnormI items).filter (fun it => !isBlockItem it) := by
+    simp only [List.filter_filter, Bool.and_self]
+  have hB : isBlockItem (.blockC C12.hdrBody) = true := rfl
+  simp only [writtenDoc, canonItems, List.filter_append, h1, h2, h3, h4, List.nil_append, List.append_nil]
+  constructor
+  · split
+    · rfl
+    · simp only [List.filter_cons, hB, Bool.not_true, Bool.false_eq_true, if_false, List.filter_nil, List.nil_append]
+  · split
+    · rfl
+    · simp only [List.filter_cons, hB, if_true, List.filter_nil]
+
+/-- **M4 `C12_roundtrip_commented`.**  Writing the SDict read from a commented document and reading the text again
+    (any valid counter) returns the meaning of `writtenDoc items`: the document in the writer's spelling with the
+    top-level block comments moved to the top (in their order) and the default header in front when the document has
+    no header of its own.  Every comment of every level is there, at its place among the entries of its level
+    (`skel_cnormI`, `writtenDoc_top`). -/
+theorem C12_roundtrip_commented {c c₂ : Counter} {items : List CItem} (dir : Str) (H : HW c items)
+    (hc₂ : C13.ValidCounter Gen.counterLimit c₂)
+    (hn : C02.countQuotedEs (plainItems (writtenDoc items)) ≤ Gen.counterLimit + 1)
+    (hd : C02.DocKeysAbsent (plainItems (writtenDoc items))) :
+    ∃ text c', fmtSD .native (denC c items) = some text ∧
+      parseNative true dir c₂ text = .ok (denC c₂ (writtenDoc items), c') ∧
+      skelI (cnormI items) = skelI items ∧
+      (writtenDoc items).filter (fun it => !isBlockItem it) = (cnormI items).filter (fun it => !isBlockItem it) ∧
+      (writtenDoc items).filter isBlockItem =
+        (if ownHeaderI items then [] else [.blockC C12.hdrBody]) ++ (cnormI items).filter isBlockItem := by
+  obtain ⟨gaps, hw, hg⟩ := C12_write_commented H
+  have hread := C12.C12_read_commented dir c₂ (writtenDoc_wf H) hg (fun _ => by decide) hc₂ hn hd
+  refine ⟨_, C02.adv Gen.counterLimit (C02.countQuotedEs (plainItems (writtenDoc items)))
+    (labelCItems { counter := c₂ } (writtenDoc items)).1.counter, hw, ?_, skel_cnormI items, (writtenDoc_top items).1,
+    (writtenDoc_top items).2⟩
+  cases hct : ctoksItems (writtenDoc items) with
+  | nil =>
+    have e0 : ∀ g : List Str, spreadC [] g ['\n'] = ['\n'] := fun g => rfl
+    rw [hct, e0] at hread
+    rw [e0]
+    exact hread
+  | cons t ts =>
+    have e : spreadC (t :: ts) (['\n'] :: gaps) ['\n'] = '\n' :: spreadC (t :: ts) ([] :: gaps) ['\n'] := by
+      simp [spreadC, spread]
+    rw [hct, e, parseNative_nl] at hread
+    exact hread
 
 end DictIO.C12W
